@@ -481,6 +481,370 @@ Proof.
     apply settle_one_R in E. destruct x as [m'|m'|]; cbn in E; try exact I; (eapply oRR_step; [exact E|apply IH]).
 Qed.
 
+(* ================================================================ the handlers *)
+(* [P s0 m]: every connection is a connection of the step's pre-state [s0] with its version,
+   every output so far is acceptable for [s0], and J/W hold *)
+Definition P (s0 : gmap conn cstate) (m : M) : Prop :=
+  cle s0 (conns (ms m)) /\ Forall (okout s0) (mo m) /\ J (ms m) /\ W m.
+
+Definition oP (Q : M -> Prop) (x : outcome M) : Prop :=
+  match x with Done m | Fail m => Q m | Panic _ => True end.
+
+Lemma P_R s0 m m' : P s0 m -> R m m' -> P s0 m'.
+Proof.
+  intros (Hc & Ho & HJ & HW) [S H]. destruct (H HJ HW) as (HW' & new & E & F).
+  split; [eapply cle_trans; [exact Hc|apply (shr_c _ _ S)]|].
+  split; [|split; [eapply J_shr; eassumption|exact HW']].
+  rewrite E. apply Forall_app. split; [exact Ho|].
+  eapply Forall_impl; [exact F|]. intros o. apply okout_cle, Hc.
+Qed.
+
+Lemma P_oR s0 m x : P s0 m -> oRR m x -> oP (P s0) x.
+Proof. intros HP H. destruct x; cbn in *; try exact I; eapply P_R; eassumption. Qed.
+
+Lemma oP_bind s0 x f : oP (P s0) x -> (forall m1, P s0 m1 -> oP (P s0) (f m1)) -> oP (P s0) (x >>> f).
+Proof. intros Hx Hf. destruct x; cbn in *; auto. Qed.
+
+Definition okmsg (m : M) (c : conn) (x : msg) : Prop :=
+  forall cs, conns (ms m) !! c = Some cs -> msg_min_version x = 14 \/ msg_min_version x <= cs_ver cs.
+
+(* a send changes nothing but the outputs *)
+Lemma send_frame m c x from m' :
+  send m c x from = Done m' \/ send m c x from = Fail m' -> ms m' = ms m /\ mw m' = mw m.
+Proof.
+  unfold send. destruct (conns (ms m) !! c) as [cs|]; [|intros [H|H]; discriminate H].
+  destruct (cs_alive cs); intros [H|H]; try discriminate H; injection H as <-; auto.
+Qed.
+
+Lemma send_P s0 m c x from : P s0 m -> okmsg m c x -> oP (P s0) (send m c x from).
+Proof. intros HP Hv. eapply P_oR; [exact HP|apply send_R, Hv]. Qed.
+
+Lemma send_bind_P s0 m c x from k :
+  P s0 m -> okmsg m c x ->
+  (forall m1, ms m1 = ms m -> mw m1 = mw m -> P s0 m1 -> oP (P s0) (k m1)) ->
+  oP (P s0) (send m c x from >>> k).
+Proof.
+  intros HP Hv Hk. pose proof (send_P s0 m c x from HP Hv) as H.
+  destruct (send m c x from) as [m1|m1|] eqn:E; cbn in *; try assumption.
+  destruct (send_frame m c x from m1 (or_introl E)). apply Hk; assumption.
+Qed.
+
+Lemma gate_P s0 m c minv k :
+  P s0 m -> (forall cs, conns (ms m) !! c = Some cs -> minv <= cs_ver cs -> oP (P s0) (k m)) ->
+  oP (P s0) (gate m c minv k).
+Proof.
+  intros HP Hk. unfold gate, ver_of. destruct (conns (ms m) !! c) as [cs|] eqn:E; cbn; [|exact HP].
+  destruct (N.ltb_spec (cs_ver cs) minv); [exact HP|]. eapply Hk; eauto.
+Qed.
+
+Lemma svc_by_cookie_Some st c k s : svc_by_cookie st c = Some (k, s) -> svcs st !! k = Some s.
+Proof.
+  unfold svc_by_cookie. destruct (list_find _ _) as [[i [k' s']]|] eqn:E; [|discriminate].
+  cbn. intros [= -> ->]. apply list_find_Some in E as (E & _ & _).
+  apply elem_of_map_to_list. eapply elem_of_list_lookup_2. exact E.
+Qed.
+
+Lemma owner_of_svc_Some st k owner :
+  owner_of_svc st k = Some owner -> exists o, objs st !! k.1 = Some o /\ o_owner o = owner.
+Proof. unfold owner_of_svc. destruct (objs st !! k.1) as [o|]; [|discriminate]. cbn. intros [= <-]. eauto. Qed.
+
+(* a state update that only shrinks (in the sense of [shr]) *)
+Lemma P_shr s0 m m' :
+  P s0 m -> shr (ms m) (ms m') -> w_unsub_all (mw m') = w_unsub_all (mw m) -> mo m' = mo m -> P s0 m'.
+Proof. intros HP S Ew Em. eapply P_R; [exact HP|apply R_shr; assumption]. Qed.
+
+Lemma P_same s0 m m' :
+  P s0 m -> conns (ms m') = conns (ms m) -> objs (ms m') = objs (ms m) -> svcs (ms m') = svcs (ms m) ->
+  w_unsub_all (mw m') = w_unsub_all (mw m) -> mo m' = mo m -> P s0 m'.
+Proof. intros HP Ec Eo Es Ew Em. eapply P_R; [exact HP|apply R_same; assumption]. Qed.
+
+(* a state update that leaves connections, work and outputs alone *)
+Lemma P_J s0 m m' :
+  P s0 m -> conns (ms m') = conns (ms m) -> w_unsub_all (mw m') = w_unsub_all (mw m) -> mo m' = mo m ->
+  (strict = true -> J0 (ms m) -> J0 (ms m')) -> P s0 m'.
+Proof.
+  intros (Hc & Ho & HJ & HW) Ec Ew Em HJ'. split; [rewrite Ec; exact Hc|]. split; [rewrite Em; exact Ho|].
+  split; [intros Hs; apply (HJ' Hs), HJ, Hs|]. intros Hs c sc cs. rewrite Ew, Ec. apply HW, Hs.
+Qed.
+
+Definition reg_ok (st : state) : Prop := forall k sv, svcs st !! k = Some sv -> is_Some (objs st !! k.1).
+Definition own_ok (st : state) : Prop := forall u o, objs st !! u = Some o -> is_Some (conns st !! o_owner o).
+
+Ltac free ::= intros ? _; left; reflexivity.
+Ltac psame HP := eapply P_same; [exact HP|reflexivity..].
+
+Lemma create_service_impl_P s0 m c serial oc u i fresh :
+  P s0 m -> oP (P s0) (create_service_impl m c serial oc u i fresh).
+Proof.
+  intros HP. unfold create_service_impl.
+  destruct (obj_by_cookie (ms m) oc) as [[ou o]|]; [|apply send_P; [exact HP|free]].
+  destruct (bool_decide _); [apply send_P; [exact HP|free]|].
+  destruct (negb _); [apply send_P; [exact HP|free]|].
+  destruct i as [i|]; [|exact HP].
+  apply send_bind_P; [exact HP|free|]. intros m1 Hms Hmw HP1. cbn.
+  eapply P_J; [exact HP1|reflexivity..|]. cbn.
+  intros _ HJ k sv o' cs Hk Hne Hob Hcn. cbn in Hk, Hob, Hcn. apply lookup_insert_Some in Hk as [[<- <-]|[_ Hk]].
+  - cbn in Hne. contradiction.
+  - eapply HJ; eauto.
+Qed.
+
+Lemma call_impl_P s0 m c serial sc fn ver v bserial :
+  P s0 m -> oP (P s0) (call_impl m c serial sc fn ver v bserial).
+Proof.
+  intros HP. unfold call_impl.
+  destruct (svc_by_cookie (ms m) sc) as [[k s]|]; [|apply send_P; [exact HP|free]].
+  destruct (owner_of_svc (ms m) k) as [callee|]; [|exact I].
+  destruct (conns (ms m) !! c) as [cs|] eqn:Ec; [|exact HP].
+  destruct (pick_serial (ms m) bserial) as [[b nxt]|]; [|exact I].
+  destruct (bool_decide _); [psame HP|].
+  set (m0 := m <| ms; next := nxt |>).
+  destruct (svcs (ms m0) !! k) as [s'|] eqn:Es; [|exact I].
+  destruct (conns (ms m0) !! callee) as [ccs|] eqn:Ecc; [|exact I].
+  change (svcs (ms m) !! k = Some s') in Es. change (conns (ms m) !! callee = Some ccs) in Ecc.
+  match goal with |- context [send_or_remove ?mm _ _ _] => set (m1 := mm) end.
+  assert (HP1 : P s0 m1).
+  { eapply P_shr; [exact HP| |reflexivity|reflexivity]. subst m1 m0. cbn.
+    split; [eapply cle_insert; [exact Ec|reflexivity]|apply ole_refl|eapply sle_insert; [exact Es|auto]]. }
+  assert (Hv : forall cs', conns (ms m1) !! callee = Some cs' -> cs_ver cs' = cs_ver ccs).
+  { intros cs' H. subst m1 m0. cbn in H. apply lookup_insert_Some in H as [[<- <-]|[_ H]].
+    - rewrite Ec in Ecc. injection Ecc as <-. reflexivity.
+    - rewrite Ecc in H. injection H as <-. reflexivity. }
+  clearbody m1.
+  destruct (N.leb_spec MIN_CALL_FUNCTION2_OUT (cs_ver ccs)) as [Hle|Hlt].
+  - eapply P_oR; [exact HP1|]. apply send_or_remove_R. intros cs' Hcs'. right. rewrite (Hv _ Hcs'). exact Hle.
+  - eapply P_oR; [exact HP1|]. apply send_or_remove_R. free.
+Qed.
+
+Ltac shr_solve :=
+  cbn; split;
+  [ first [apply cle_refl | eapply cle_insert; [eassumption|reflexivity]]
+  | first [apply ole_refl | apply ole_delete]
+  | first [apply sle_refl | apply sle_delete | eapply sle_insert; [eassumption| cbn; solve [auto | set_solver]]] ].
+Ltac pupd H := eapply P_shr; [exact H | shr_solve | reflexivity | reflexivity].
+Ltac pany := match goal with H : P _ _ |- _ => first [exact H | psame H | pupd H] end.
+
+(* the reply to a gated request: the requester's version passed the gate *)
+Ltac okgate :=
+  let cs' := fresh in let Hc' := fresh in
+  intros cs' Hc'; right;
+  match goal with
+  | Hc : conns (ms ?m) !! ?c = Some ?cs, Hle : ?k <= cs_ver ?cs |- _ =>
+      rewrite Hc in Hc'; injection Hc' as <-;
+      let k' := eval vm_compute in k in change k with k' in Hle; cbn; lia
+  end.
+
+Ltac hstep :=
+  match goal with
+  | |- oP _ (Panic _) => exact I
+  | |- oP _ (Fail _) => pany
+  | |- oP _ (Done _) => pany
+  | H : P _ ?m |- oP _ (send ?m _ _ _) => apply send_P; [exact H|first [free|okgate]]
+  | H : P _ ?m |- oP _ (send ?m _ _ _ >>> _) => apply send_bind_P; [exact H|first [free|okgate]|intros ? ? ? ?]
+  | H : P _ ?m |- oP _ (gate ?m _ _ _) => apply gate_P; [exact H|intros ? ? ?]
+  | H : P _ ?m |- oP _ (create_service_impl ?m _ _ _ _ _ _) => apply create_service_impl_P; exact H
+  | H : P _ ?m |- oP _ (call_impl ?m _ _ _ _ _ _ _) => apply call_impl_P; exact H
+  | H : P _ ?m |- oP _ (remove_object ?m _) => eapply P_oR; [exact H|apply remove_object_R]
+  | H : P _ ?m |- oP _ (remove_service ?m _) => eapply P_oR; [exact H|apply remove_service_R]
+  | H : P _ ?m |- oP _ (remove_end ?m _ _) => eapply P_oR; [exact H|apply remove_end_R]
+  | H : P _ ?m |- oP _ (send_or_remove ?m _ _ _) => eapply P_oR; [exact H|apply send_or_remove_R; free]
+  | H : P _ ?m |- oP _ (send_ignore ?m _ _ _) => eapply P_oR; [exact H|apply send_ignore_R; free]
+  | |- oP (P ?s0) (send ?mm ?c ?x ?f) =>
+      let H' := fresh "HP" in assert (H' : P s0 mm) by pany; apply send_P; [exact H'|free]
+  | |- oP (P ?s0) (send_or_remove ?mm ?c ?x ?f) =>
+      let H' := fresh "HP" in assert (H' : P s0 mm) by pany;
+      eapply P_oR; [exact H'|apply send_or_remove_R; free]
+  | |- oP (P ?s0) (send_ignore ?mm ?c ?x ?f) =>
+      let H' := fresh "HP" in assert (H' : P s0 mm) by pany;
+      eapply P_oR; [exact H'|apply send_ignore_R; free]
+  | |- oP _ (if ?b then _ else _) => destruct b eqn:?
+  | |- oP _ (match ?x with _ => _ end) => destruct x eqn:?
+  end.
+
+Ltac svc_facts :=
+  repeat match goal with
+  | E : svc_by_cookie (ms ?m) _ = Some (?k, ?s) |- _ =>
+      lazymatch goal with
+      | _ : svcs (ms m) !! k = Some s |- _ => fail
+      | _ => pose proof (svc_by_cookie_Some _ _ _ _ E)
+      end
+  | Hms : ms ?m1 = ms ?m, H : svcs (ms ?m) !! ?k = Some ?s |- _ =>
+      lazymatch goal with
+      | _ : svcs (ms m1) !! k = Some s |- _ => fail
+      | _ => assert (svcs (ms m1) !! k = Some s) by (rewrite Hms; exact H)
+      end
+  end.
+
+Lemma foldO_send_P {A} s0 (g : A -> msg) c l : forall m,
+  P s0 m -> (forall p, msg_min_version (g p) = 14) ->
+  oP (P s0) (foldO (fun m p => send m c (g p) None) l m).
+Proof.
+  intros m HP Hg. eapply P_oR; [exact HP|]. apply oRR_foldO. intros ma p. apply send_R.
+  intros ? _. left. apply Hg.
+Qed.
+
+(* the reply/notification pair of claim_channel_end *)
+Lemma claim_pair_P s0 m c x other y :
+  P s0 m -> msg_min_version x = 14 -> msg_min_version y = 14 ->
+  oP (P s0) (match send m c x None with
+             | Panic s => Panic s
+             | Done m2 => send_or_remove m2 other y None
+             | Fail m2 => match send_or_remove m2 other y None with Done m3 => Fail m3 | z => z end
+             end).
+Proof.
+  intros HP Hx Hy. pose proof (send_P s0 m c x None HP) as H.
+  destruct (send m c x None) as [m2|m2|]; cbn in H; [| |exact I].
+  - eapply P_oR; [apply H; intros ? _; left; exact Hx|]. apply send_or_remove_R. intros ? _. left. exact Hy.
+  - assert (H2 : oP (P s0) (send_or_remove m2 other y None)).
+    { eapply P_oR; [apply H; intros ? _; left; exact Hx|]. apply send_or_remove_R. intros ? _. left. exact Hy. }
+    destruct (send_or_remove m2 other y None); exact H2.
+Qed.
+
+Lemma send_owner_P s0 m owner ocs x :
+  P s0 m -> conns (ms m) !! owner = Some ocs -> msg_min_version x <= cs_ver ocs ->
+  oP (P s0) (send_ignore m owner x None).
+Proof.
+  intros HP Hc Hv. eapply P_oR; [exact HP|]. apply send_ignore_R. intros cs' H. rewrite Hc in H.
+  injection H as <-. right. exact Hv.
+Qed.
+
+(* subscribe_all_events: the subscriber set may grow because the owner's version was checked *)
+Lemma P_sub_all s0 m k s' owner ocs :
+  P s0 m -> owner_of_svc (ms m) k = Some owner -> conns (ms m) !! owner = Some ocs ->
+  18 <= cs_ver ocs -> P s0 (m <| ms; svcs ::= <[k := s']> |>).
+Proof.
+  intros HP Ho Hc Hv. eapply P_J; [exact HP|reflexivity..|]. cbn.
+  intros _ HJ k' sv o cs Hk Hne Hob Hcn. cbn in Hk, Hob, Hcn.
+  apply lookup_insert_Some in Hk as [[<- <-]|[_ Hk]]; [|eapply HJ; eauto].
+  apply owner_of_svc_Some in Ho as (o' & Ho' & <-). rewrite Ho' in Hob. injection Hob as <-.
+  rewrite Hc in Hcn. injection Hcn as <-. exact Hv.
+Qed.
+
+Lemma handle_P s0 m c x fresh b :
+  P s0 m -> (strict = true -> reg_ok (ms m)) -> oP (P s0) (handle m c x fresh b).
+Proof.
+  intros HP Hreg. unfold handle.
+  destruct (conns (ms m) !! c) as [cs|] eqn:Ec; [|exact HP].
+  destruct x.
+  (* ClaimChannelEnd first: its nested match on the reply's result *)
+  all: try match goal with
+       | |- context [ChannelEndClaimed] =>
+           match goal with |- context [chans ?st !! ?k] => destruct (chans st !! k) as [ch|] eqn:Ech; [|repeat hstep] end;
+           match goal with |- context [chan_claim ?a ?b ?d] => destruct (chan_claim a b d) as [r|ch' other r|site]; [repeat hstep| |exact I] end;
+           apply claim_pair_P; [pany|reflexivity|reflexivity]
+       end.
+  all: repeat (svc_facts; hstep).
+  (* CreateObject *)
+  all: try match goal with
+       | Hms : ms ?m1 = ms ?m, HP1 : P _ ?m1, Hn : bool_decide (is_Some (objs (ms ?m) !! ?u)) = false,
+         Hreg : _ -> reg_ok (ms ?m)
+         |- oP _ (Done (?m1 <| ms; objs ::= _ |> <| mw; w_create_obj ::= _ |> <| ms; st; n_objs ::= _ |>)) =>
+           eapply P_J; [exact HP1|reflexivity..|]; cbn;
+           let Hst := fresh in let HJ := fresh in
+           intros Hst HJ k sv o cs' Hk Hne Hob Hcn; cbn in Hk, Hob, Hcn;
+           apply bool_decide_eq_false in Hn;
+           rewrite Hms in Hk, Hob, Hcn, HJ;
+           destruct (decide (k.1 = u)) as [Hku|Hku];
+           [ exfalso; apply Hn; rewrite <- Hku; eapply (Hreg Hst); exact Hk
+           | rewrite lookup_insert_ne in Hob by congruence; eapply HJ; eauto ]
+       end.
+  (* EmitEvent *)
+  all: try match goal with
+       | H : P _ ?m |- oP _ (foldO (fun m x => send_or_remove m x (EmitEvent _ _ _) _) _ ?m) =>
+           eapply P_oR; [exact H|apply oRR_foldO; intros; apply send_or_remove_R; free]
+       | H : P _ ?m |- oP _ (remove_end ?m _ _ >>> _) =>
+           eapply P_oR; [exact H|apply oRR_bind; [apply remove_end_R|intros; apply remove_end_R]]
+       | H : P _ ?m1 |- oP _ (Done (remove_listener ?m1 _)) => eapply P_R; [exact H|apply remove_listener_R]
+       | |- oP _ (send_or_remove _ _ (ItemReceived _ _) _ >>> _) =>
+           apply oP_bind; [hstep|let m2 := fresh "m" in let HP2 := fresh "HP" in intros m2 HP2; repeat hstep]
+       | |- oP (P ?s0) (send ?mm _ (StartBusListenerReply _ STOk) _ >>> _) =>
+           let HPm := fresh "HP" in assert (HPm : P s0 mm) by pany;
+           apply send_bind_P; [exact HPm|free|];
+           let m2 := fresh "m" in let HP2 := fresh "HP" in intros m2 _ _ HP2;
+           match goal with |- context [includes_current ?sc] => destruct (includes_current sc) end; [|exact HP2];
+           apply oP_bind; [apply foldO_send_P; [exact HP2|reflexivity]|];
+           let m3 := fresh "m" in let HP3 := fresh "HP" in intros m3 HP3;
+           apply oP_bind; [apply foldO_send_P; [exact HP3|reflexivity]|];
+           let m4 := fresh "m" in let HP4 := fresh "HP" in intros m4 HP4;
+           apply send_P; [exact HP4|free]
+       end.
+  (* SubscribeAllEvents: the owner's version was checked *)
+  all: try match goal with
+       | Hms : ms ?m1 = ms ?m, HP1 : P _ ?m1, Ho : owner_of_svc (ms ?m) ?k = Some ?owner,
+         Hc : conns (ms ?m) !! ?owner = Some ?ocs,
+         Hchk : _ || (cs_ver ?ocs <? MIN_SUBSCRIBE_ALL_EVENTS_OWNER) = false |- _ =>
+           let Hv := fresh "Hv" in
+           assert (Hv : 18 <= cs_ver ocs) by (apply orb_false_iff in Hchk as [_ Hchk]; apply N.ltb_ge in Hchk; exact Hchk);
+           rewrite <- Hms in Ho, Hc;
+           first [ eapply send_owner_P; [eapply P_sub_all; eassumption|cbn; exact Hc|exact Hv]
+                 | cbn; eapply P_sub_all; eassumption ]
+       end.
+  (* UnsubscribeAllEvents *)
+  match goal with
+  | Hc : conns (ms m) !! ?owner = Some ?ocs,
+    Hchk : (cs_ver ?ocs <? MIN_UNSUBSCRIBE_ALL_EVENTS_OWNER) = false |- _ =>
+      apply N.ltb_ge in Hchk; rename Hc into Hoc; rename Hchk into Hv
+  end.
+  assert (Htail : forall m1, ms m1 = ms m -> P s0 m1 ->
+    oP (P s0) (if negb (bool_decide (s_all s = ∅)) && bool_decide (s_all s ∖ {[c]} = ∅)
+               then send_ignore (m1 <| ms; svcs ::= <[p0 := s <| s_all := s_all s ∖ {[c]} |>]> |>) c0
+                      (UnsubscribeAllEvents None sc) None
+               else Done (m1 <| ms; svcs ::= <[p0 := s <| s_all := s_all s ∖ {[c]} |>]> |>))).
+  { intros m1 Hms HP1.
+    assert (Hs1 : svcs (ms m1) !! p0 = Some s) by (rewrite Hms; assumption).
+    assert (HP1' : P s0 (m1 <| ms; svcs ::= <[p0 := s <| s_all := s_all s ∖ {[c]} |>]> |>)) by pupd HP1.
+    destruct (_ && _); [|exact HP1'].
+    eapply send_owner_P; [exact HP1'|cbn; rewrite Hms; exact Hoc|exact Hv]. }
+  destruct serial as [n|].
+  - apply send_bind_P; [exact HP|okgate|]. intros m1 Hms _ HP1. apply Htail; assumption.
+  - cbn [andThen]. apply Htail; [reflexivity|exact HP].
+Qed.
+
+(* ================================================================ one step *)
+Lemma P_init s : J s -> P (conns s) {| ms := s; mw := work0; mo := [] |}.
+Proof.
+  intros HJ. split; [apply cle_refl|]. split; [constructor|]. split; [exact HJ|].
+  intros _ c sc cs Hin. cbn in Hin. apply elem_of_nil in Hin. contradiction.
+Qed.
+
+Lemma step_tail s0 m f s' o :
+  P s0 m ->
+  match settle f m with Done m' | Fail m' => Done (ms m', mo m') | Panic site => Panic site end = Done (s', o) ->
+  Forall (okout s0) o /\ J s'.
+Proof.
+  intros HP H. pose proof (P_oR s0 m _ HP (settle_R f m)) as H2.
+  destruct (settle f m) as [m'|m'|]; try discriminate H; injection H as <- <-;
+    destruct H2 as (_ & Ho & HJ & _); auto.
+Qed.
+
+Lemma settle_idle fuel m : settle_one m = None -> settle fuel m = Done m.
+Proof. intros H. destruct fuel; cbn [settle]; rewrite H; reflexivity. Qed.
+
+Theorem step_gate_out s e fresh b s' o :
+  J s -> (strict = true -> own_ok s /\ reg_ok s) ->
+  step s e fresh b = Done (s', o) -> Forall (okout (conns s)) o /\ J s'.
+Proof.
+  intros HJ Hinv Hstep. unfold step in Hstep. pose proof (P_init s HJ) as HP0.
+  set (m0 := {| ms := s; mw := work0; mo := [] |}) in *.
+  destruct e as [c ver|c|c x| | |c|c].
+  - (* NewConnection *)
+    destruct (conns s !! c) as [?|] eqn:Ec; [discriminate Hstep|].
+    rewrite settle_idle in Hstep by reflexivity. injection Hstep as <- <-. split; [constructor|].
+    intros Hst k sv ob cs Hk Hne Hob Hcn. cbn in Hk, Hob, Hcn.
+    apply lookup_insert_Some in Hcn as [[Heq _]|[_ Hcn]].
+    + destruct (Hinv Hst) as [Hown _]. destruct (Hown _ _ Hob) as [? Hx]. rewrite <- Heq, Ec in Hx. discriminate.
+    + eapply (HJ Hst); eauto.
+  - eapply step_tail; [|exact Hstep]. eapply P_R; [exact HP0|apply push_remove_R].
+  - pose proof (handle_P (conns s) m0 c x fresh b HP0 (fun Hst => proj2 (Hinv Hst))) as Hh.
+    destruct (handle m0 c x fresh b) as [m|m|]; [| |discriminate Hstep]; cbn in Hh.
+    + eapply step_tail; [|exact Hstep]. exact Hh.
+    + eapply step_tail; [|exact Hstep]. eapply P_R; [exact Hh|apply push_remove_R].
+  - eapply step_tail; [|exact Hstep]. eapply P_R; [exact HP0|].
+    via_foldr; [apply RR_foldr; intros; apply push_remove_R|same].
+  - match type of Hstep with match settle ?ff ?mm with _ => _ end = _ => apply (step_tail (conns s) mm ff) end; [|exact Hstep]. psame HP0.
+  - eapply step_tail; [|exact Hstep]. eapply P_R; [exact HP0|apply push_remove_R].
+  - eapply step_tail; [|exact Hstep]. destruct (conns s !! c) as [cs|] eqn:Ec; [|exact HP0].
+    pupd HP0.
+Qed.
 End pass.
 
 (* ================================================================ gate-in *)
@@ -541,3 +905,106 @@ Example gated_kinds :
   (forall a b, min_version_of (SubscribeAllEvents a b) = Some 18) /\
   (forall a b, min_version_of (UnsubscribeAllEvents a b) = Some 18).
 Proof. repeat split. Qed.
+
+(* ================================================================ gate-out, for every step *)
+(* unconditional: every output of every step goes to a connection of the pre-state and is not
+   newer than that connection's version — except possibly the owner notification
+   UnsubscribeAllEvents None, whose justification needs the ownership invariants (below) *)
+Theorem gate_out_partial s e fresh b s' o c x from :
+  step s e fresh b = Done (s', o) -> (c, x, from) ∈ o ->
+  exists cs, conns s !! c = Some cs /\
+    (msg_min_version x = 14 \/ msg_min_version x <= cs_ver cs \/ exists sc, x = UnsubscribeAllEvents None sc).
+Proof.
+  intros Hstep Hin.
+  destruct (step_gate_out false s e fresh b s' o) as [Ho _]; [discriminate|discriminate|exact Hstep|].
+  rewrite Forall_forall in Ho. destruct (Ho _ Hin) as (cs & Hc & Hv). exists cs. split; [exact Hc|].
+  destruct Hv as [Hv|[Hv|[_ Hv]]]; auto.
+Qed.
+
+(* histories along which the ownership invariants hold: every object's owner is connected, every
+   service's object exists (C03/C09 territory: Broker/Inv*.v proves them for [reachable]) *)
+Inductive reach_own : state -> Prop :=
+| ro_init : reach_own init
+| ro_step s i s' o : reach_own s -> legal s i -> own_ok s -> reg_ok s ->
+    step s (i_ev i) (i_fresh i) (i_bserial i) = Done (s', o) -> reach_own s'.
+
+Lemma reach_own_reachable s : reach_own s -> reachable s.
+Proof. induction 1; [constructor|econstructor; eassumption]. Qed.
+
+Lemma reachable_reach_own :
+  (forall s, reachable s -> own_ok s /\ reg_ok s) -> forall s, reachable s -> reach_own s.
+Proof.
+  intros Hinv s H. induction H as [|s i s' o H IH Hl Hs]; [constructor|].
+  destruct (Hinv s H). econstructor; eassumption.
+Qed.
+
+Lemma J0_init : J0 init.
+Proof. intros k sv o cs Hk. cbn in Hk. rewrite lookup_empty in Hk. discriminate. Qed.
+
+Lemma reach_own_J s : reach_own s -> J0 s.
+Proof.
+  induction 1 as [|s i s' o H IH Hl Ho Hr Hs]; [apply J0_init|].
+  destruct (step_gate_out true s _ _ _ s' o (fun _ => IH) (fun _ => conj Ho Hr) Hs) as [_ HJ].
+  apply HJ. reflexivity.
+Qed.
+
+Theorem gate_out_own s e fresh b s' o c x from :
+  reach_own s -> own_ok s -> reg_ok s ->
+  step s e fresh b = Done (s', o) -> (c, x, from) ∈ o ->
+  exists cs, conns s !! c = Some cs /\ (msg_min_version x = 14 \/ msg_min_version x <= cs_ver cs).
+Proof.
+  intros Hr Ho Hg Hstep Hin.
+  destruct (step_gate_out true s e fresh b s' o (fun _ => reach_own_J s Hr) (fun _ => conj Ho Hg) Hstep) as [Hf _].
+  rewrite Forall_forall in Hf. destruct (Hf _ Hin) as (cs & Hc & Hv). exists cs. split; [exact Hc|].
+  destruct Hv as [Hv|[Hv|[Hv _]]]; [auto|auto|discriminate Hv].
+Qed.
+
+(* connections negotiated through the handshake have version >= 14: then the bound is plain *)
+Definition vers_ge14 (s : state) : Prop := forall c cs, conns s !! c = Some cs -> 14 <= cs_ver cs.
+
+Corollary gate_out_own_14 s e fresh b s' o c x from :
+  reach_own s -> own_ok s -> reg_ok s -> vers_ge14 s ->
+  step s e fresh b = Done (s', o) -> (c, x, from) ∈ o ->
+  exists cs, conns s !! c = Some cs /\ msg_min_version x <= cs_ver cs.
+Proof.
+  intros Hr Ho Hg H14 Hstep Hin. destruct (gate_out_own _ _ _ _ _ _ _ _ _ Hr Ho Hg Hstep Hin) as (cs & Hc & Hv).
+  exists cs. split; [exact Hc|]. destruct Hv as [->|Hv]; [apply (H14 _ _ Hc)|exact Hv].
+Qed.
+
+(* versions never change and no step but NewConnection adds a connection *)
+Theorem versions_stable s e fresh b s' o c cs' :
+  step s e fresh b = Done (s', o) -> conns s' !! c = Some cs' ->
+  (exists cs, conns s !! c = Some cs /\ cs_ver cs' = cs_ver cs) \/
+  (exists ver, e = NewConnection c ver /\ cs_ver cs' = ver).
+Proof.
+  intros Hstep Hc. unfold step in Hstep.
+  set (m0 := {| ms := s; mw := work0; mo := [] |}) in *.
+  assert (Htail : forall m f, cle (conns s) (conns (ms m)) ->
+    match settle f m with Done m' | Fail m' => Done (ms m', mo m') | Panic site => Panic site end = Done (s', o) ->
+    exists cs, conns s !! c = Some cs /\ cs_ver cs' = cs_ver cs).
+  { intros m f Hle H. pose proof (settle_R false f m) as H2.
+    destruct (settle f m) as [m'|m'|]; try discriminate H; injection H as <- <-;
+      destruct H2 as [S _]; apply (cle_trans _ _ _ Hle (shr_c _ _ S)); exact Hc. }
+  destruct e as [c0 ver|c0|c0 x| | |c0|c0].
+  - destruct (conns s !! c0) as [?|] eqn:Ec; [discriminate Hstep|].
+    rewrite settle_idle in Hstep by reflexivity. injection Hstep as <- <-. cbn in Hc.
+    apply lookup_insert_Some in Hc as [[<- <-]|[_ Hc]]; [right; eauto|left; eauto].
+  - left. eapply Htail; [|exact Hstep]. apply cle_refl.
+  - left. pose proof (handle_P false (conns s) m0 c0 x fresh b (P_init false s ltac:(discriminate)) ltac:(discriminate)) as Hh.
+    destruct (handle m0 c0 x fresh b) as [m|m|]; [| |discriminate Hstep]; cbn in Hh;
+      (eapply Htail; [|exact Hstep]); apply Hh.
+  - left. match type of Hstep with match settle ?ff ?mm with _ => _ end = _ => apply (Htail mm ff) end; [|exact Hstep].
+    cbn. clear. induction (map_to_list (conns s)); cbn; [apply cle_refl|assumption].
+  - left. match type of Hstep with match settle ?ff ?mm with _ => _ end = _ => apply (Htail mm ff) end; [|exact Hstep]. apply cle_refl.
+  - left. eapply Htail; [|exact Hstep]. apply cle_refl.
+  - left. eapply Htail; [|exact Hstep]. destruct (conns s !! c0) as [cs|] eqn:Ec; [|apply cle_refl].
+    cbn. eapply cle_insert; [exact Ec|reflexivity].
+Qed.
+
+Lemma vers_ge14_step s e fresh b s' o :
+  vers_ge14 s -> (match e with NewConnection _ v => 14 <= v | _ => True end) ->
+  step s e fresh b = Done (s', o) -> vers_ge14 s'.
+Proof.
+  intros H14 He Hstep c cs' Hc.
+  destruct (versions_stable _ _ _ _ _ _ _ _ Hstep Hc) as [(cs & Hcs & ->)|(ver & -> & ->)]; [eapply H14; eauto|exact He].
+Qed.
